@@ -144,6 +144,9 @@ def copy_resources(search_dir, extra_search_dirs, root_dir, fnames, dest_dir, th
         dest_css = normpath(root_dir, dest_dir, single_css)
         if isdir(dest_css):
             raise SkoolKitError("Cannot write CSS file '{}': {} already exists and is a directory".format(normpath(single_css), dest_css))
+        dest_d = dirname(dest_css)
+        if not isdir(dest_d):
+            os.makedirs(dest_d)
         with open(dest_css, 'w') as css:
             for f in files:
                 notify('Appending {} to {}'.format(normpath(f), dest_css))
